@@ -184,6 +184,22 @@ def f(a):
 ''', [(1,)], False),
 ]
 
+PARAM_SSA = [
+    ('rebound-parameters', '''
+def f(a, b, c=1):
+    x = a
+    a, b = (x + 1, b or -x)
+    b = b * 2
+    return (a, b, x) if c else (b, a)
+''', [(1, 0), (2, 5), (3, 0, 0)], True),
+    ('parameter-rebound-in-branch', '''
+def f(a, b):
+    if b:
+        a = a + 1
+    return a
+''', [(1, 0), (1, 1)], False),
+]
+
 SIMPLIFY = [
     ('aliases-and-constants', '''
 class S:
@@ -391,6 +407,19 @@ def run() -> Dict[str, Any]:
         new = normalise_function(old)
         changed = new is not old and ast.dump(new) != ast.dump(old)
         if expect is not None and changed != expect:
+            errs.append(f'{name}: rewritten={changed}, expected {expect}')
+        a = _run(src, '', inputs)
+        b = _run(src, ast.unparse(new), inputs)
+        if a != b:
+            errs.append(f'{name}: results differ: {a} vs {b}')
+    from .normalise import ssa_params
+    for name, src, inputs, expect in PARAM_SSA:
+        n += 1
+        tree = ast.parse(src)
+        old = _fn(tree)
+        new = ssa_params(old)
+        changed = ast.dump(new) != ast.dump(old)
+        if changed != expect:
             errs.append(f'{name}: rewritten={changed}, expected {expect}')
         a = _run(src, '', inputs)
         b = _run(src, ast.unparse(new), inputs)
